@@ -106,6 +106,14 @@ thread_local! {
     static SIM: std::cell::RefCell<Option<std::mem::ManuallyDrop<ClientSim>>> = const { std::cell::RefCell::new(None) };
 }
 
+/// Forget the worker's client: the next `with_sim` builds a fresh one (for sections whose cases must be
+/// self-contained because they are about state a client carries from one read to the next).
+pub fn reset_sim() {
+    if let Some(sim) = SIM.with(|s| s.borrow_mut().take()) {
+        drop(std::mem::ManuallyDrop::into_inner(sim));
+    }
+}
+
 pub fn with_sim<R>(f: impl FnOnce(&mut ClientSim) -> R) -> R {
     let mut sim = SIM.with(|s| s.borrow_mut().take()).map(std::mem::ManuallyDrop::into_inner).unwrap_or_else(|| ClientSim::new(fix::ed_keypair(0xC14)));
     let r = f(&mut sim);
